@@ -633,7 +633,7 @@ def c08_n2(ctx):
                 other.append(at_[:80])
             # anything else (constants, end of held data) is the default for an empty request list
         if positional:
-            yield bad("C08-N2", key, where, "%s is taken from the %s request of the PDU (%s): the queue is not in offset order (the requests of a delayed check over the whole file follow those of an earlier gap), so a request can lie outside the announced scope" % (nm, pick, positional[0]))
+            yield bad("C08-N2", key + ":%s-request" % pick, where, "%s is taken from the %s request of the PDU (%s): the queue is not in offset order (the requests of a delayed check over the whole file follow those of an earlier gap), so a request can lie outside the announced scope" % (nm, pick, positional[0]))
         elif picked and not other:
             yield ok("C08-N2", key, where, "%s of %s over the requests sent in this PDU" % (ext, fld))
         else:
